@@ -1,7 +1,7 @@
 PID = "C11"
 WORKER = "w_c11"
 HEADER = ("From Coq Require Import List ZArith NArith QArith Qcanon String.\n"
-          "From Dimod Require Import Base.Util Model.Poly Model.Comb Model.Ser Model.Coo Model.InfoSer Model.ChkC11.\nImport ListNotations.")
+          "From Dimod Require Import Base.Util Model.Poly Model.Comb Model.Ser Model.Coo Model.InfoSer Model.CooNum Model.CooLex Model.ChkC11.\nImport ListNotations.")
 CHECK_FN = "check"
 N_QUICK = 2400
 N_THOROUGH = 60000
